@@ -36,7 +36,7 @@ def plan(ops, quick, seed):
         n = o["name"]; sa = o["src"][0]; sb = o["src"][1] if len(o["src"]) > 1 else 0; sd = o["dest"][0]
         if sa == 1 and sb in (0, 1):
             lines.append("%s 1 ex8 %d" % (n, seed))
-        if sa == 2 and (not quick or sb == 0 or True):
+        if sa == 2:
             lines.append("%s 1 ex16 %d" % (n, seed))
         for mult in (1, 2, 4):
             if max(sa, sb, sd if "ACCUMULATOR" not in o["flags"] else 0) * mult > 8:
@@ -64,7 +64,8 @@ def run_paths(ctx, lines, paths, label, focus_ops=None):
         open(pf, "w").write("\n".join(ch) + "\n")
         if os.path.exists(tf):
             os.unlink(tf)
-        rc, out = sh([binary, path, pf], timeout=3000, env={"ORC_VERIF_TRACE": tf})
+        rc, out = sh([binary, path, pf], timeout=3000,
+                     env={"ORC_VERIF_TRACE": tf, "H_EX16_PASSES": "1" if ctx.quick else "6"})
         if rc != 0:
             raise MachineryError("h_ops failed rc=%d %s" % (rc, out[-800:]))
         return path, tf
